@@ -166,7 +166,9 @@ def call(rng, t, fmt):
             "color": rng.choice(COLORS), "to_bed12": rng.random() < 0.5}
 
 
-def bed_case(rng, fmt):
+def bed_case(rng, fmt, single_by_id=False):
+    """single_by_id=False: a transcript whose block selection is empty is always given as a Feature;
+    single_by_id=True: every call selects no block child and gives the transcript by id (plus the same call by Feature)."""
     n = rng.randrange(1, 6)
     ts = []
     for i in range(n):
@@ -179,6 +181,14 @@ def bed_case(rng, fmt):
         for _ in range(rng.randrange(1, 4)):
             c = call(rng, t, fmt)
             c["t"] = i
+            empty = not M.select(t["children"], c["block"])
+            if single_by_id:
+                if not empty:
+                    c["block"] = "absent_type"
+                c["as"] = "id"
+                calls.append(dict(c, **{"as": "feature"}))
+            elif empty:
+                c["as"] = "feature"
             calls.append(c)
-    nlines = None
-    return {"kind": "bed12", "fmt": fmt, "transcripts": ts, "calls": calls, "shuffle_seed": rng.randrange(1 << 30) if rng.random() < 0.3 else None}
+    return {"kind": "bed12", "fmt": fmt, "transcripts": ts, "calls": calls,
+            "shuffle_seed": rng.randrange(1 << 30) if rng.random() < 0.3 else None}
